@@ -542,12 +542,27 @@ func c25Key(p []vx.Op, got, want string) string {
 
 // c25Harness: variant 0 = empty store, tier alphabet; 1 = a store populated by an earlier process
 // (one bulk write, then a new store object on the file: everything is cold), tier alphabet;
-// 2 = empty store, quick alphabet (used for the deeper phase A of the thorough tier).
+// 2 = empty store, reduced alphabet (used for the deeper phase A of the thorough tier).
 func c25Harness(variant int) *vx.Harness {
 	th := os.Getenv("VERIF_TIER") == "thorough"
 	alpha := c25Alphabet(th)
 	if variant == 2 {
-		alpha = c25Alphabet(false)
+		// reduced alphabet for depth 4: drop uint64/bool/float on x, the empty updates and ids 0/99/101
+		keep := map[string]bool{}
+		for _, i := range []int{0, 1, 2, 6, 7, 8, 9, 13, 14} {
+			keep[fmt.Sprintf("set%d", i)] = true
+		}
+		for _, i := range []int{0, 1} {
+			keep[fmt.Sprintf("bulk%d", i)] = true
+		}
+		var red []vx.Op
+		for _, o := range c25Alphabet(false) {
+			if (o.Name == "set" || o.Name == "bulk") && !keep[fmt.Sprintf("%s%d", o.Name, o.Args[0])] {
+				continue
+			}
+			red = append(red, o)
+		}
+		alpha = red
 	}
 	return &vx.Harness{Alphabet: alpha, Key: c25Key, New: func() vx.Instance {
 		in := c25New(true)
@@ -596,11 +611,11 @@ func TestVerif_C25(t *testing.T) {
 		c25PxRunDFS(c, c25Harness(2), 2, 4, kv)
 	}
 	c.Extra("phaseA_wall_s", time.Since(t0).Seconds())
-	c.Bound("phaseA", "v0: empty store, depth 3; v1: seed [bulk{1:x=s,100:x=true}; new store object], depth 3; v2 (thorough): empty store, quick alphabet, depth 4")
+	c.Bound("phaseA", "v0: empty store, depth 3; v1: seed [bulk{1:x=s,100:x=true}; new store object], depth 3; v2 (thorough): empty store, reduced 18-op alphabet, depth 4")
 	// Phase B (thorough tier): state-merged BFS from the empty store.
 	if th {
 		t0 = time.Now()
-		c25PxRunBFS(c, h, 0, 6, 20000, kv)
+		c25PxRunBFS(c, h, 0, 6, 5000, kv)
 		c.Extra("phaseB_wall_s", time.Since(t0).Seconds())
 	} else {
 		c.AddStates(int64(ends))
